@@ -450,7 +450,7 @@ def _hint(a, b):
     T = a["T"]
     eps = max(T // 4, 40)
     obs = a["obs"]
-    valid_in_time = [o for o in obs if o["k"] == "valid" and 0 <= o.get("avail", o["t"]) < T - eps]
+    valid_in_time = [o for o in obs if o["k"] == "valid" and o.get("avail", o["t"]) < T - eps]
     if any(o["k"] == "none" for o in obs):
         return "a node was never asked (or its request never ended): the fan-out to every node is missing in this call"
     if b["noreturn"] or b["t"] > T + eps:
